@@ -1,0 +1,156 @@
+//go:build verif
+
+package vm
+
+// Contracts for govc (contract-based deductive verification). Comment-only: this file
+// contributes no declarations and is compiled only with -tags verif.
+
+// ---- bytecode loader and VM core (C10, C04) ---------------------------------------------
+// For an arbitrary byte slice (symbolic length and content): no index, slice, nil or type-assertion
+// panic (strict), offsets only move forward and stay inside the input, and no allocation is sized
+// by an operand that exceeds what the input or the stack can back.
+
+// Value.Type() and the WebSocket handler never touch VM state
+//@ decl inert Value
+//@ decl inert WebSocketHandler
+
+//@ spec func wfpc(vm *VM) bool = vm != nil && 0 <= vm.pc && vm.pc <= 4611686018427387904
+
+//@ func (*VM).readConstant
+//@   strict
+//@   requires vm != nil && offset != nil && 0 <= *offset && *offset <= len(bytecode)
+//@   modifies *offset
+//@   ensures err == nil ==> old(*offset) < *offset && *offset <= len(bytecode)
+//@   ensures err != nil ==> old(*offset) <= *offset && *offset <= len(bytecode)
+
+//@ func (*VM).parseBytecode
+//@   strict
+//@   requires vm != nil && offset != nil && 0 <= *offset && *offset <= len(bytecode)
+//@   ensures err == nil ==> old(*offset) < *offset && *offset <= len(bytecode)
+//@   loop 1 invariant 0 <= *offset && *offset <= len(bytecode) && 0 <= i && i <= constCount && old(*offset) < *offset
+//@   loop 1 decreases constCount - i
+
+//@ func (*VM).readOperand
+//@   strict
+//@   requires wfpc(vm)
+//@   modifies vm.pc
+//@   ensures err == nil ==> vm.pc == old(vm.pc) + 4 && vm.pc <= len(vm.code) && 0 <= result && result <= 4294967295 && wfpc(vm)
+//@   ensures err != nil ==> vm.pc == old(vm.pc)
+
+//@ func (*VM).Pop
+//@   strict
+//@   requires vm != nil
+//@   modifies vm.stack
+//@   ensures err == nil ==> len(vm.stack) == old(len(vm.stack)) - 1 && old(len(vm.stack)) > 0
+//@   ensures err != nil ==> len(vm.stack) == old(len(vm.stack)) && old(len(vm.stack)) == 0
+
+//@ func (*VM).Push
+//@   strict
+//@   requires vm != nil
+//@   modifies vm.stack, elems(vm.stack)
+//@   ensures len(vm.stack) <= old(len(vm.stack)) + 1 && len(vm.stack) >= old(len(vm.stack))
+
+//@ func (*VM).step
+//@   strict
+//@   requires wfpc(vm)
+//@   ensures wfpc(vm) && vm.maxSteps == old(vm.maxSteps)
+
+//@ func (*VM).execPush
+//@   strict
+//@   requires wfpc(vm)
+//@   ensures wfpc(vm)
+
+//@ func (*VM).execJump
+//@   strict
+//@   requires wfpc(vm)
+//@   ensures wfpc(vm)
+//@   ensures err == nil ==> 0 <= vm.pc
+
+// operand-sized allocations are backed by the stack / the code
+//@ func (*VM).execBuildArray
+//@   strict
+//@   requires wfpc(vm)
+//@   ensures wfpc(vm)
+//@   allocbound len(vm.stack)
+//@   loop 1 invariant -1 <= i && i < elemCount && len(arr) == elemCount && fresh(arr)
+//@   loop 1 decreases i + 1
+
+//@ func (*VM).execCall
+//@   ensures vm.maxSteps == old(vm.maxSteps)
+//@   requires wfpc(vm)
+//@   ensures wfpc(vm)
+//@   allocbound len(vm.stack)
+//@   dyncall modifies nothing
+//@   loop 1 invariant -1 <= i && i < argCount && len(args) == argCount && fresh(args)
+//@   loop 1 decreases i + 1
+
+//@ func (*VM).execBuildObject
+//@   requires wfpc(vm)
+//@   ensures wfpc(vm)
+//@   loop 1 invariant 0 <= i && obj != nil
+//@   loop 1 decreases fieldCount - i
+
+//@ func (*VM).runLoop
+//@   requires wfpc(vm) && vm.maxSteps > 0
+//@   mathint
+//@   loop 1 invariant 0 <= steps && steps <= vm.maxSteps && vm.maxSteps == old(vm.maxSteps) && wfpc(vm)
+//@   loop 1 decreases vm.maxSteps - steps
+
+// every instruction leaves the program counter well-formed
+//@ func (*VM).executeInstruction
+//@   requires wfpc(vm)
+//@   ensures wfpc(vm) && vm.maxSteps == old(vm.maxSteps)
+//@ func (*VM).execJumpIfFalse
+//@   strict
+//@   requires wfpc(vm)
+//@   ensures wfpc(vm)
+//@ func (*VM).execJumpIfTrue
+//@   strict
+//@   requires wfpc(vm)
+//@   ensures wfpc(vm)
+//@ func (*VM).execLoadVar
+//@   requires wfpc(vm)
+//@   ensures wfpc(vm)
+//@ func (*VM).execStoreVar
+//@   requires wfpc(vm)
+//@   ensures wfpc(vm)
+//@ func (*VM).execIterNext
+//@   requires wfpc(vm)
+//@   ensures wfpc(vm)
+//@ func (*VM).execAsync
+//@   requires wfpc(vm)
+//@   mathint
+//@   allocbound len(vm.code) + len(vm.constants)
+//@   ensures wfpc(vm) && vm.maxSteps == old(vm.maxSteps)
+
+// ---- operand table shared by VM, compiler and decompiler (C10) ----------------------------
+//@ spec func hasOp(op Opcode) bool = op == OpPush || op == OpLoadVar || op == OpStoreVar || op == OpJump || op == OpJumpIfFalse || op == OpJumpIfTrue || op == OpIterNext || op == OpCall || op == OpBuildObject || op == OpBuildArray || op == OpAsync
+//@ spec func jumpOp(op Opcode) bool = op == OpJump || op == OpJumpIfFalse || op == OpJumpIfTrue || op == OpAsync || op == OpHalt
+// a successful non-jump instruction advances the program counter by exactly its operand width
+//@ func (*VM).executeInstruction
+//@   ensures err == nil && !jumpOp(opcode) ==> vm.pc == old(vm.pc) + ite(hasOp(opcode), 4, 0)
+//@ func (*VM).execPush
+//@   ensures err == nil ==> vm.pc == old(vm.pc) + 4
+//@ func (*VM).execLoadVar
+//@   ensures err == nil ==> vm.pc == old(vm.pc) + 4
+//@ func (*VM).execStoreVar
+//@   ensures err == nil ==> vm.pc == old(vm.pc) + 4
+//@ func (*VM).execIterNext
+//@   ensures err == nil ==> vm.pc == old(vm.pc) + 4
+//@ func (*VM).execCall
+//@   ensures err == nil ==> vm.pc == old(vm.pc) + 4
+//@ func (*VM).execBuildObject
+//@   ensures err == nil ==> vm.pc == old(vm.pc) + 4
+//@ func (*VM).execBuildArray
+//@   ensures err == nil ==> vm.pc == old(vm.pc) + 4
+
+//@ func (*VM).Execute
+//@   strict
+//@   requires vm != nil && vm.maxSteps > 0
+
+// termination under the step limit: Execute / executeRaw run only with a positive limit
+//@ func (*VM).executeRaw
+//@   requires vm != nil && vm.maxSteps > 0
+//@ func (*VM).execAsync$1
+//@   requires maxSteps > 0
+//@   callpre (*vm.VM).executeRaw arg0.maxSteps == maxSteps
